@@ -12,6 +12,7 @@ def register(db):
     register_xsi_cache(db)
     register_find_subclass(db)
     register_memo(db)
+    register_find_types(db)
     P = ["C14"]
     # ------------------------------------------------------------------ memoised wildcard matching
     M = "uf('match_ns', 'bool', self.namespaces, {q})"
@@ -262,3 +263,31 @@ def register_memo(db):
             note=f"memoised function {sp['function']}: parameter {sp['param']} admits {sp['types'][0]} and {sp['types'][1]}; "
                  f"equal values of the two types share one cache entry",
         ))
+
+
+def register_find_types(db):
+    """find_types / find_type: a name of a native schema datatype has no classes (and does not touch the index); any
+    other name is answered from the index *after* the staleness test (build_xsi_cache) - never from the index as an
+    earlier call left it; find_type is the last class of that answer, None when there is none."""
+    db.add(Contract(f"{CTX}.build_xsi_cache", variant="call-view", trusted=True, call_default=True, params={}, raises={"XmlContextError": True, "NameError": True, "TypeError": True},
+                    note="call-site view: the (verified) staleness test and rebuild; recorded on the ghost trace"))
+    db.opaque_ops[("XsiCache", "contains")] = lambda ex, st, v, item: iter([(st, __import__("pyvc.contracts", fromlist=["pure_result"]).pure_result(ex, st, "XsiCache.has", "bool", [v, item]))])
+
+    def context(mk, base):
+        return mk.obj(CTX, {"cache": "opaque:PyDict", "xsi_cache": "opaque:XsiCache", "sys_modules": "int",
+                            "class_type": "opaque:ClassType", "models_package": "str|None",
+                            "element_name_generator": "opaque:Any", "attribute_name_generator": "opaque:Any"})
+
+    db.always_truthy.add("DataType")  # an Enum member without __bool__ / __len__
+    NATIVE = "uf('DataType.from_qname', 'u:DataType|None', qname) is not None"
+    db.add(Contract(
+        f"{CTX}.find_types", variant="lookup",
+        params={"self": context, "qname": "str"},
+        ensures=[("a-native-datatype-name-has-no-classes-and-leaves-the-index-alone",
+                  f"implies({NATIVE}, len(result) == 0 and called('XmlContext.build_xsi_cache') == 0)"),
+                 ("any-other-name-is-answered-after-the-staleness-test",
+                  f"implies(not ({NATIVE}), called('XmlContext.build_xsi_cache') == 1)"),
+                 ("an-unknown-name-has-no-classes",
+                  f"implies(not ({NATIVE}) and not uf('XsiCache.has', 'bool', self.xsi_cache, qname), len(result) == 0)")],
+        raises={"XmlContextError": True, "NameError": True, "TypeError": True}, properties=["C14"],
+    ))
